@@ -21,11 +21,16 @@ pub struct Server {
 }
 
 pub fn config(network: &str, traces: bool, db_path: &str, port: u16, auth: Option<(&str, &str)>) -> brc20_prog::Brc20ProgConfig {
+    config_with(network, traces, db_path, port, auth.is_some(), auth.map(|a| a.0), auth.map(|a| a.1))
+}
+
+/// every combination of the three authentication settings, including the inconsistent ones
+pub fn config_with(network: &str, traces: bool, db_path: &str, port: u16, auth_enabled: bool, user: Option<&str>, pass: Option<&str>) -> brc20_prog::Brc20ProgConfig {
     brc20_prog::Brc20ProgConfig::new(
         format!("127.0.0.1:{port}"),
-        auth.is_some(),
-        auth.map(|a| a.0.to_string()),
-        auth.map(|a| a.1.to_string()),
+        auth_enabled,
+        user.map(|a| a.to_string()),
+        pass.map(|a| a.to_string()),
         traces,
         24_000_000,
         String::new(),
@@ -44,11 +49,14 @@ pub fn config(network: &str, traces: bool, db_path: &str, port: u16, auth: Optio
 impl Server {
     /// the public entry point of the crate, on a small multi-threaded runtime of its own
     pub fn start(network: &str, traces: bool, db_path: &str, auth: Option<(&str, &str)>) -> Result<Server, String> {
+        Self::start_with(network, traces, db_path, auth.is_some(), auth.map(|a| a.0), auth.map(|a| a.1))
+    }
+    pub fn start_with(network: &str, traces: bool, db_path: &str, auth_enabled: bool, user: Option<&str>, pass: Option<&str>) -> Result<Server, String> {
         let rt = tokio::runtime::Builder::new_multi_thread().worker_threads(2).enable_all().build().map_err(|e| e.to_string())?;
         let mut last = String::new();
         for _ in 0..20 {
             let port = next_port();
-            let cfg = config(network, traces, db_path, port, auth);
+            let cfg = config_with(network, traces, db_path, port, auth_enabled, user, pass);
             match rt.block_on(async { brc20_prog::start(cfg).await.map_err(|e| e.to_string()) }) {
                 Ok(handle) => return Ok(Server { port, handle: Some(handle), rt: Some(rt) }),
                 Err(e) => {
